@@ -524,3 +524,35 @@ def table_oracle(chk, table, case):
             chk.fail('empty-namespace-bound', case, 'prefix %r bound to the empty namespace' % p)
         if not re.match(r'^[A-Za-z_][A-Za-z0-9_.\-]*\Z', p) or p == 'xmlns':
             chk.fail('bad-prefix', case, 'prefix %r' % p)
+
+
+def alive_across_load_check(chk):
+    """a document that is alive while the process loads other packages / registers other namespaces must serialise, afterwards and
+    twice, to what a fresh interpreter writes (C01: "whatever the process has serialised before"; C14: declarations persist)"""
+    # fixed cases: a tree with foreign namespaces (element / attribute only / both) is alive while another package is loaded or
+    # another document is created and saved; serialised afterwards (twice) it must be what a fresh interpreter writes
+    F1, F2 = u'urn:example:foreign', u'http://example.org/a?b=1&c=2'
+    T = u'urn:oasis:names:tc:opendocument:xmlns:text:1.0'
+    alive = [('E', F1, u'foo', [], [('T', u'x')]),
+             ('E', T, u'p', [(F2, u'custom', u'v')], []),
+             ('E', F1, u'foo', [(F2, u'custom', u'v')], [('E', F2, u'span', [(F1, u'lang', u'w')], [('T', u'y')])])]
+    import glob
+    samples0 = sorted(glob.glob(os.path.join(common.REPO, 'tests', 'examples', '*.od*')))
+    for label, extra in (('synthetic-load', {'synthetic': [[u'zz', u'urn:foreign:zz']]}),
+                         ('sample-load', {'preload': samples0[:1]}),
+                         ('two-loads', {'preload': samples0[:2], 'synthetic': [[u'zz', u'urn:foreign:zz']]}),
+                         ('touch-only', {'touch': [u'urn:new:a', u'urn:new:b']})):
+        fresh = run_child({'trees_before': alive, 'twice': True})
+        spec = dict(extra); spec.update({'trees_before': alive, 'twice': True})
+        after = run_child(spec)
+        chk.case(('alive-across', label)); chk.count('alive_across_load_cases')
+        for k, (a, b) in enumerate(zip(fresh['docs'], after['docs'])):
+            ok1, t1 = wellformed(PROLOGUE + a); ok2, t2 = wellformed(PROLOGUE + b)
+            case = {'alive': alive[k % len(alive)], 'then': extra, 'serialisation': 1 + k // len(alive)}
+            if not ok1:
+                chk.fail('not-wellformed-fresh', case, str(t1))
+            elif not ok2:
+                chk.fail('not-wellformed-after-history', case, str(t2))
+            elif X.sort_attrs(t1) != X.sort_attrs(t2):
+                chk.fail('history-dependent-infoset', case, str(X.first_diff(X.sort_attrs(t1), X.sort_attrs(t2))))
+
